@@ -40,6 +40,7 @@ def patterns():
         'boolop2': lambda: M.MBoolOp(values=[m(a=...), m(b=...)]),
         'add0': lambda: M.MBinOp(left=m(l=...), op=M.MAdd, right=M.MConstant(0)),
         'not_': lambda: M.MUnaryOp(op=M.MNot, operand=m(x=...)),
+        'arguments': lambda: M.Marguments,
         'ret': lambda: M.MReturn(value=m(v=...)),
         'if_': lambda: M.MIf(test=m(t=...), body=m(b=...), orelse=m(e=...)),
         'assign1': lambda: M.MAssign(targets=[m(t=...)], value=m(v=...)),
@@ -95,6 +96,9 @@ TEMPLATES = {
     'e_peel_v': '__FST_v',
     'e_peel_first': '__FST_first',
     'e_peel_a': '__FST_a',
+    'a_ident': '__FST_',
+    'a_whole_z': '__FST_, z',
+    'a_y_whole': 'y, __FST_',
     's_ident': '__FST_',
     's_wrap_if': 'if cond:\n    __FST_',
     's_try': 'try:\n    __FST_\nfinally:\n    done()',
@@ -228,6 +232,26 @@ def gen(n):
         i += got or 1
     return (yield)
 ''',
+    # parameter lists with no, two and three plain parameters (and none with exactly one)
+    '''\
+def f0(): pass
+def f2(a, b): return a
+def f3(a, b, c):
+    return b
+lam0 = lambda: 0
+lam2 = lambda p, q: p
+
+
+class K:
+    def m2(self, other): return other
+''',
+    # ... and with exactly one
+    '''\
+def g2(a, b): return a
+def g1(only): return only
+def g0(): pass
+sq = lambda v: v * v
+''',
     # assignments, augmented assignments, subscripts, attributes, comparisons, conditional expressions
     '''\
 x = y = a.b.c
@@ -245,6 +269,16 @@ idx = data[lo + 1][hi - 1]
 ]
 
 
+def plain_param_programs():
+    """indices of the programs whose parameter lists are all plain (the domain of the `arguments` slot model)"""
+    out = []
+    for i, p in enumerate(programs()):
+        al = [n for n in ast.walk(ast.parse(p)) if isinstance(n, ast.arguments)]
+        if al and all(ref.plain_args(a) for a in al):
+            out.append(i)
+    return out
+
+
 def programs():
     from corpus.programs import PROGRAMS
     return list(PROGRAMS) + EXTRA_PROGRAMS + [PEEL_PROGRAM]
@@ -253,6 +287,8 @@ def programs():
 def template_tops(src: str, cat: str):
     if cat == 'expr':
         return [ast.parse(src, mode='eval').body]
+    if cat == 'arguments':
+        return [ast.parse(f'def _({src}): pass').body[0].args]
     return ast.parse(src).body
 
 
@@ -487,7 +523,10 @@ def run_case(rec: Recorder, tid: int, src: str, pat_id: str, tmpl_src: str, cat:
     kw = dict(kw_opt, count=cfg['count'], loop=cfg['loop'] if cfg['loop'] else False, on=cfg['on'], back=cfg['back'])
     if cfg['cb']:
         kw.update(callback=cb, callback_after=cba)
-    repl = FST(tmpl_src, 'exec' if cat == 'stmt' else 'expr') if repl_as_fst else tmpl_src
+    if cat == 'arguments':          # a parameter list can only be given as a node
+        repl, repl_as_fst = FST(tmpl_src, 'arguments'), False
+    else:
+        repl = FST(tmpl_src, 'exec' if cat == 'stmt' else 'expr') if repl_as_fst else tmpl_src
     outcome, exc, uniq, total = 'ok', '', 0, 0
     try:
         _, uniq, total = f.subn(pat, repl, cfg['nested'], **kw)
